@@ -4,10 +4,13 @@
 //!   c11      {"keys": [key…], "txn": bool, "ops": [op…]}    key API only (+ Item-kind rows in category `cryptokey`)
 //!   c11:raw  the same plus Kms rows written behind the key API (odd tags, foreign CBOR); the oracle only
 //!            judges what the property determines there
-//! key  = {"alg", "how": "seed"|"secret"|"public"|"bls_keygen", "mat": hex,            (recipe, read by the executor)
+//! key  = {"alg", "how": "seed"|"seed_empty"|"secret"|"public"|"bls_keygen", "mat": hex,            (recipe, read by the executor)
 //!         "thumbs": […], "jwk": hex|{"err"}, "sec": hex|{"err"}, "pub": hex|{"err"}}   (observables, read by the model)
 //! op   = insert_key {n, key, meta, ref, t, e} | update_key {n, meta, t, e} | remove_key {n} | fetch_key {n}
 //!      | fetch_all_keys {alg, thumb, f, lim} | item_fetch {n} | raw_insert {k, n, v, t} | dump
+//!      | from_seed {alg, seed, method}      `LocalKey::from_seed` alone: {"sec": hex} | {"err": kind}   (kind c11:seed, gap row 20)
+//!   c11:seed  one algorithm per case: keys seeded with 0 / 31 / 32 / 33 / 64-byte seeds under the default, the empty and the
+//!            `bls_keygen` method are stored, fetched, loaded, filtered; `from_seed` with unknown methods and short BLS seeds
 //! Every call runs in its own session (a transaction that is committed when "txn" is set).
 use crate::canon::{filter_from_json, jvalue, kind_of, ref_holds, sorted_tags, tags_from_json, Rec, Tag};
 use crate::gen_store::{LIKE_PATTERNS, TAG_VALUES};
@@ -72,6 +75,7 @@ fn make_key(k: &Value) -> Result<LocalKey, aries_askar::Error> {
     let mat = hex::decode(k["mat"].as_str().unwrap_or("")).unwrap_or_default();
     match k["how"].as_str().unwrap_or("") {
         "seed" => LocalKey::from_seed(alg, &mat, None),
+        "seed_empty" => LocalKey::from_seed(alg, &mat, Some("")),
         "bls_keygen" => LocalKey::from_seed(alg, &mat, Some("bls_keygen")),
         "secret" => LocalKey::from_secret_bytes(alg, &mat),
         "public" => LocalKey::from_public_bytes(alg, &mat),
@@ -297,6 +301,45 @@ fn directed(id: u64, r: &mut Rng) -> Vec<Value> {
     ]
 }
 
+/// gap row 20: seeded keys of every seed length and method, stored and read back; `from_seed` alone on the refusing inputs
+fn gen_seed_case(r: &mut Rng, id: u64, idx: usize) -> Value {
+    let alg = ALGS[idx % ALGS.len()];
+    let base = r.bytes(64);
+    let recipes: Vec<(&str, Vec<u8>)> = vec![
+        ("seed", vec![]), ("seed", base[..31].to_vec()), ("seed", base[..32].to_vec()), ("seed", base[..33].to_vec()), ("seed", base.clone()),
+        ("seed_empty", base[..32].to_vec()), ("bls_keygen", base[..32].to_vec()), ("bls_keygen", base.clone()),
+    ];
+    let mut keys = vec![];
+    for (how, mat) in &recipes {
+        let mut k = json!({"alg": alg, "how": how, "mat": hex::encode(mat)});
+        let key = make_key(&k).expect("seeded key");
+        let o = observables(&key);
+        for (f, v) in o.as_object().unwrap() { k[f] = v.clone(); }
+        keys.push(k);
+    }
+    let method = |how: &str| -> Value { match how { "seed" => Value::Null, "seed_empty" => json!(""), _ => json!("bls_keygen") } };
+    let mut ops = vec![];
+    for (i, _) in recipes.iter().enumerate() {
+        ops.push(json!({"op": "insert_key", "n": format!("s{}", i), "key": i, "meta": if i % 2 == 0 { Value::Null } else { json!(format!("seeded {}", i)) }, "ref": null,
+                        "t": if i == 2 { json!([[0, "a", "1"]]) } else { Value::Null }, "e": null}));
+        ops.push(json!({"op": "fetch_key", "n": format!("s{}", i)}));
+    }
+    for (how, mat) in &recipes { ops.push(json!({"op": "from_seed", "alg": alg, "seed": hex::encode(mat), "method": method(how)})); }
+    // refused: unknown methods (any seed), bls_keygen with fewer than 32 bytes
+    for m in ["BLS_KEYGEN", "bls-keygen", "bls_keygen ", "random", "\u{0}"] { ops.push(json!({"op": "from_seed", "alg": alg, "seed": hex::encode(&base[..32]), "method": m})); }
+    ops.push(json!({"op": "from_seed", "alg": alg, "seed": "", "method": "bogus"}));
+    for n in [0usize, 1, 31] { ops.push(json!({"op": "from_seed", "alg": alg, "seed": hex::encode(&base[..n]), "method": "bls_keygen"})); }
+    ops.push(json!({"op": "update_key", "n": "s1", "meta": "updated", "t": [[1, "n", "5"]], "e": null}));
+    ops.push(json!({"op": "fetch_key", "n": "s1"}));
+    ops.push(json!({"op": "remove_key", "n": "s0"}));
+    ops.push(json!({"op": "fetch_all_keys", "alg": alg, "thumb": null, "f": null, "lim": null}));
+    // the 32-, 33- and 64-byte seeds (and the empty method) are one key: one thumbprint finds all four entries
+    ops.push(json!({"op": "fetch_all_keys", "alg": null, "thumb": keys[2]["thumbs"][0], "f": null, "lim": null}));
+    ops.push(json!({"op": "fetch_all_keys", "alg": null, "thumb": keys[7]["thumbs"][0], "f": null, "lim": null}));
+    ops.push(json!({"op": "dump"}));
+    json!({"kind": "c11:seed", "id": id, "txn": idx % 3 == 0, "file": false, "keys": keys, "ops": ops})
+}
+
 pub fn gen(r: &mut Rng, thorough: bool, count: Option<usize>) -> Vec<Value> {
     let n = count.unwrap_or(if thorough { 12000 } else { 480 });
     let mut out = vec![];
@@ -308,6 +351,9 @@ pub fn gen(r: &mut Rng, thorough: bool, count: Option<usize>) -> Vec<Value> {
         out.push(gen_case(&mut rr, i, thorough, raw));
     }
     out.truncate(n.max(1));
+    // gap kind last (ids after the others, which keep theirs)
+    let mut rs = r.fork();
+    for i in 0..(n / 30).max(1) { let mut rr = rs.fork(); out.push(gen_seed_case(&mut rr, (n + i) as u64, i)); }
     out
 }
 
@@ -452,6 +498,16 @@ pub fn exec(case: &Value, tag: &str) -> Value {
                     s.close(true).await.ok();
                     r
                 }
+                "from_seed" => {
+                    let seed = hex::decode(op["seed"].as_str().unwrap_or("")).unwrap_or_default();
+                    match KeyAlg::from_str(op["alg"].as_str().unwrap_or("")) {
+                        Err(_) => json!({"err": "BadOp"}),
+                        Ok(alg) => match LocalKey::from_seed(alg, &seed, op["method"].as_str()) {
+                            Ok(k) => json!({"sec": hex_or_err(k.to_secret_bytes())}),
+                            Err(e) => jerr(&e),
+                        },
+                    }
+                }
                 "dump" => {
                     let mut all = vec![];
                     let mut err = None;
@@ -511,6 +567,28 @@ pub fn exec(case: &Value, tag: &str) -> Value {
             let short = |v: &Value| -> String { if let Some(e) = v.get("err") { format!("err:{}", e.as_str().unwrap_or("?")) } else if v.is_null() { "none".into() } else if v == "ok" { "ok".into() } else { "data".into() } };
             match name {
                 "raw_insert" => { if op["k"].as_i64() == Some(1) && got == "ok" { o.raw_kms.insert(n.clone()); } }
+                "from_seed" => {
+                    let m = op["method"].as_str();
+                    let slen = op["seed"].as_str().map_or(0, |h| h.len() / 2);
+                    let class = match m { None | Some("") => "det", Some("bls_keygen") => "bls_keygen", _ => "unknown" };
+                    let exp = match class { "unknown" => "err:Unsupported", "bls_keygen" if slen < 32 => "err:Input", _ => "data" };
+                    if short(&got) != exp { oracle_fail.push(json!({"sig": format!("from_seed:{}:{}->{}", class, exp, short(&got)), "i": i, "alg": op["alg"]})); }
+                    // the same recipe as a key of the table: the same key
+                    let how = match class { "det" if m.is_none() => "seed", "det" => "seed_empty", "bls_keygen" => "bls_keygen", _ => "-" };
+                    for kj in keys_json.iter().filter(|kj| kj["alg"] == op["alg"] && kj["how"] == how && kj["mat"] == op["seed"]) {
+                        if got["sec"] != kj["sec"] { oracle_fail.push(json!({"sig": "from_seed:not-deterministic", "i": i, "alg": op["alg"]})); }
+                    }
+                    // OBSERVATION, outside the property statement (C11 does not say that distinct seeds give distinct keys): a default-method
+                    // seed is cut to 32 bytes / zero-padded by `RandomDet::new`, so different seeds of the table can be one key
+                    if class == "det" && got.get("sec").is_some() {
+                        for kj in keys_json.iter().filter(|kj| kj["alg"] == op["alg"] && (kj["how"] == "seed" || kj["how"] == "seed_empty") && kj["mat"] != op["seed"] && kj["sec"] == got["sec"]) {
+                            let (la, lb) = (kj["mat"].as_str().map_or(0, |h| h.len() / 2), slen);
+                            let c = if la >= 32 && lb >= 32 { "bytes-beyond-32-ignored" } else { "zero-padded" };
+                            *feat.entry(format!("obs:from_seed:seed-collision:{}", c)).or_insert(0) += 1;
+                            DIAG.with(|d| { let mut d = d.borrow_mut(); if d.len() < 8 { d.push(format!("obs from_seed:seed-collision:{} alg={} seed_a={} seed_b={}", c, op["alg"], kj["mat"], op["seed"])); } });
+                        }
+                    }
+                }
                 "insert_key" if !shadow && !rawname => {
                     let present = o.keys.contains_key(&n);
                     let exp = if present { json!({"err": "Duplicate"}) } else { json!("ok") };
